@@ -47,7 +47,7 @@ func registerProbes() {
 	vf.RegisterProbe("C03:removeall-above-mountpoint", func() (bool, string) {
 		s := newSubject("mount")
 		res := ops.ApplyFS(s.fs, ops.Op{K: "removeall", P: "."})
-		c, msg := invariant(s.fs)
+		c, msg := invariant(s.fs, s.closure())
 		return c != "", fmt.Sprintf("RemoveAll(\".\") through mount.FS = %v; then %s %s", res, c, msg)
 	})
 }
@@ -55,11 +55,28 @@ func registerProbes() {
 var closure = ops.Closure(gen.Names, 4)
 
 type subject struct {
+	names   []string // name alphabet (nil = gen.Names); the mount subject uses a name that has a mount point's name as a string prefix
 	kind    string
 	fs      hackpadfs.FS   // operations go here
 	views   []hackpadfs.FS // invariants are evaluated on each of these
 	store   *kvstore.Store // white-box keys (kvplain)
 	rootMut bool           // whether removing/renaming "." is generated
+}
+
+var closureAB = ops.Closure([]string{"a", "ab", "b"}, 4)
+
+func (s *subject) closure() []string {
+	if s.names != nil {
+		return closureAB
+	}
+	return closure
+}
+
+func (s *subject) alphabet() []string {
+	if s.names != nil {
+		return s.names
+	}
+	return gen.Names
 }
 
 func must(err error) {
@@ -92,7 +109,7 @@ func newSubject(kind string) *subject {
 		must(err)
 		must(mfs.AddMount("a", ma))
 		must(mfs.AddMount("a/b", mab))
-		return &subject{kind: kind, fs: mfs, views: []hackpadfs.FS{mfs, root, ma, mab}, rootMut: true}
+		return &subject{kind: kind, fs: mfs, views: []hackpadfs.FS{mfs, root, ma, mab}, rootMut: true, names: []string{"a", "ab", "b"}}
 	case "submem":
 		parent, err := mem.NewFS()
 		must(err)
@@ -118,9 +135,9 @@ func newSubject(kind string) *subject {
 }
 
 // invariant evaluates I1..I4 on fs. Returns (clause, message).
-func invariant(fs hackpadfs.FS) (string, string) {
+func invariant(fs hackpadfs.FS, paths []string) (string, string) {
 	var clause, msg string
-	pan, hung := vf.Guard(func() { clause, msg = invariantInner(fs) })
+	pan, hung := vf.Guard(func() { clause, msg = invariantInner(fs, paths) })
 	if hung {
 		return "I5-invariant-hang", "invariant evaluation did not terminate"
 	}
@@ -150,7 +167,7 @@ func listing(fs hackpadfs.FS, p string) (map[string]bool, []hackpadfs.DirEntry, 
 	return m, des, nil
 }
 
-func invariantInner(fs hackpadfs.FS) (string, string) {
+func invariantInner(fs hackpadfs.FS, closure []string) (string, string) {
 	// I1
 	fi, err := hackpadfs.Stat(fs, ".")
 	if err != nil {
@@ -355,7 +372,7 @@ func (m *machine) step(op ops.Op, situation string) (string, string) {
 		return base + ":I5-panic", fmt.Sprintf("%v: %s", op, res.Panic)
 	}
 	for i, v := range m.s.views {
-		if c, msg := invariant(v); c != "" {
+		if c, msg := invariant(v, m.s.closure()); c != "" {
 			return fmt.Sprintf("%s:%s", base, c), fmt.Sprintf("after %v (%v) on view %d: %s", op, res, i, msg)
 		}
 	}
@@ -371,13 +388,13 @@ func run(t *testing.T, kind string) {
 		rt.Repeat(map[string]func(*rapid.T){
 			"step": func(rt *rapid.T) {
 				tr := m.tree()
-				op := gen.Op(rt, tr, gen.Names, 4, m.s.rootMut)
+				op := gen.Op(rt, tr, m.s.alphabet(), 4, m.s.rootMut)
 				if rapid.IntRange(0, 4).Draw(rt, "handlestep") == 0 {
 					// handles that stay open across later namespace operations (remove / rename / re-create of their path)
 					op = ops.Op{K: rapid.SampledFrom([]string{"hopen", "hopen", "hwrite", "hwrite", "htrunc", "hchmod", "hclose"}).Draw(rt, "hk"), N: rapid.IntRange(0, 1).Draw(rt, "slot")}
 					switch op.K {
 					case "hopen":
-						op.P = gen.Path(rt, tr, gen.Names, 4, true, "hp")
+						op.P = gen.Path(rt, tr, m.s.alphabet(), 4, true, "hp")
 						op.Flag = rapid.SampledFrom([]int{os.O_RDWR, os.O_WRONLY, os.O_RDWR | os.O_CREATE, os.O_WRONLY | os.O_APPEND | os.O_CREATE}).Draw(rt, "hflag")
 					case "hwrite":
 						op.Data = gen.Payload(rt, 4, "hdata")
@@ -388,7 +405,7 @@ func run(t *testing.T, kind string) {
 					// unlink it, remove or replace its directory, re-create either as the other kind, then use the handle
 					p := rapid.SampledFrom(hp).Draw(rt, "hpath")
 					target := rapid.SampledFrom([]string{p, path.Dir(p)}).Draw(rt, "target")
-					other := gen.Random(rt, gen.Names, 2, false, "other")
+					other := gen.Random(rt, m.s.alphabet(), 2, false, "other")
 					switch rapid.IntRange(0, 6).Draw(rt, "tk") {
 					case 0:
 						op = ops.Op{K: "remove", P: target}
